@@ -175,7 +175,7 @@ RULE = ('cell enumeration: %d compile-time contexts (array size globally / secon
         'assignment, array index, call argument, iteration range, nested block, inline-if, quantifier; call chains of depth '
         '2..4; const-reference parameter), plus %d special cells about free process parameters and template parameters in '
         'sizes. Twin: the same model with the variable at the end of the chain made const. Oracle: the model depending on the '
-        'mutable variable is rejected (>= 1 error), the twin is accepted (no error). Non-trivial: every cell; distinct = (context, chain).')
+        'mutable variable is rejected (>= 1 error), the twin is accepted (no error). A stride of the cells (quick: every 9th, thorough: every 2nd) is additionally spliced into larger generated models (hosts from gen_model.py with all identifiers renamed) and judged the same way. Non-trivial: every cell; distinct = (context, chain, host).')
 
 
 def assemble(kw, gextra=''):
@@ -201,33 +201,57 @@ def worker(chk, wi, nw):
     stats = common.Stats()
     orc = oracle.Oracle(os.path.join(chk.workdir, 'w%d' % wi), cpu_limit=60)
     run = cells.Runner(orc, stats)
-    mine = [c for k, c in enumerate(build_cells()) if k % nw == wi]
-    items = []
-    for (cname, form, W, Rs) in mine:
-        items.append((W, None))
-        items += [(r, None) for r in Rs]
-    res = run.run_many(items)
-    pos = 0
-    for (cname, form, W, Rs) in mine:
-        w = res[pos]
-        pos += 1
-        rs = res[pos:pos + len(Rs)]
-        pos += len(Rs)
-        ct = any(('compile_time' in m or 'Incompatible_argument' in m or 'Free_process' in m or 'arameter' in m) for m in w['errors'])
-        stats.case(cname + '|' + form, nontrivial=True,
-                   classes=['context:' + cname, 'chain:' + form.split(':')[0], 'W:' + ('rejected' if cells.rejected(w) else 'ACCEPTED'),
-                            'W-message:' + ('computability/argument' if ct else 'other')],
-                   sample={'context': cname, 'chain': form, 'W_errors': w['errors'][:2]})
-        if w['crash'] or any(r['crash'] for r in rs):
-            stats.extra['crashes_seen_(C01)'] += 1
-            continue
-        if not cells.rejected(w):
-            chk.report(stats, {'context': cname, 'chain': form, 'side': 'dependence-accepted'},
-                       'context %s accepts a value that depends on a mutable variable through %s' % (cname, form), {'kind': 'model', 'xml': W, 'expect': 'rejected'})
-        for ti, (r, R) in enumerate(zip(rs, Rs)):
-            if cells.rejected(r):
-                chk.report(stats, {'context': cname, 'chain': form, 'side': 'twin-rejected'},
-                           'context %s rejects the constant twin #%d of chain %s: %r' % (cname, ti, form, r['errors'][:2]), {'kind': 'model', 'xml': R, 'expect': 'accepted'})
+    mine_ids = [k for k, c in enumerate(build_cells()) if k % nw == wi]
+
+    def evaluate(ids, embedded):
+        allc = build_cells()          # rebuilt so that cells.model() sees the host that is currently set
+        subset = [allc[k] for k in ids]
+        items = []
+        for (cname, form, W, Rs) in subset:
+            items.append((W, None))
+            items += [(r, None) for r in Rs]
+        res = run.run_many(items)
+        pos = 0
+        tag = '@embedded' if embedded else ''
+        for (cname, form, W, Rs) in subset:
+            w = res[pos]
+            pos += 1
+            rs = res[pos:pos + len(Rs)]
+            pos += len(Rs)
+            ct = any(('compile_time' in m or 'Incompatible_argument' in m or 'Free_process' in m or 'arameter' in m) for m in w['errors'])
+            stats.case(cname + '|' + form + ('|' + W if embedded else ''), nontrivial=True,
+                       classes=['context:' + cname, 'chain:' + form.split(':')[0], 'W:' + ('rejected' if cells.rejected(w) else 'ACCEPTED'),
+                                'W-message:' + ('computability/argument' if ct else 'other')] + (['embedded'] if embedded else []),
+                       sample={'context': cname, 'chain': form, 'embedded': embedded, 'W_errors': w['errors'][:2]})
+            if w['crash'] or any(r['crash'] for r in rs):
+                stats.extra['crashes_seen_(C01)'] += 1
+                continue
+            if not cells.rejected(w):
+                chk.report(stats, {'context': cname, 'chain': form, 'side': 'dependence-accepted' + tag},
+                           'context %s accepts a value that depends on a mutable variable through %s%s' % (cname, form, ' inside a larger generated model' if embedded else ''),
+                           {'kind': 'model', 'xml': W, 'expect': 'rejected'})
+            for ti, (r, R) in enumerate(zip(rs, Rs)):
+                if cells.rejected(r):
+                    chk.report(stats, {'context': cname, 'chain': form, 'side': 'twin-rejected' + tag},
+                               'context %s rejects the constant twin #%d of chain %s%s: %r' % (cname, ti, form, ' inside a larger generated model' if embedded else '', r['errors'][:2]),
+                               {'kind': 'model', 'xml': R, 'expect': 'accepted'})
+
+    evaluate(mine_ids, False)
+
+    # the same cells spliced into larger generated models
+    import gen_model as M
+    from hypothesis import strategies as st
+    stride = 9 if chk.tier == 'quick' else 2
+
+    def test(args):
+        m, off = args
+        host = cells.host_from_model(m, off)
+        with cells.embedding(host):
+            evaluate(mine_ids[off % stride::stride], True)
+        return None
+
+    common.run_hypothesis(chk, stats, st.tuples(M.models(need_clean=True, max_templates=2), st.integers(0, 1000)), test, 3 if chk.tier == 'quick' else 20,
+                          chk.seed * 1000 + wi, shrink=False)
     orc.close()
     return stats
 
